@@ -11,6 +11,7 @@ import itertools, random, math, contextlib
 from fractions import Fraction
 from harness.core import *
 from harness.props import _c09_util as U
+from harness.props import _c09_psolve as PS
 from harness.props._c09_util import INF, NINF, F
 
 PID = "C09"
@@ -44,7 +45,7 @@ MMV = {
     "bool": CheckFn("c09-mmv-bool", "Model.MultiSolve", "multi_mv_check_bool", Tup(DIMS, DIMS, Bool, B2(Bool), B1(Bool), B1(Bool))),
 }
 ORDER = CheckFn("c09-order", "Model.MultiSolve", "order_check", Tup(List(Tup(Nat, Nat)), List(Nat), List(Nat)))
-CHECKFNS = list(DENSE.values()) + [LU] + list(MSOLVE.values()) + list(MMV.values()) + [ORDER]
+CHECKFNS = list(DENSE.values()) + [LU] + list(MSOLVE.values()) + list(MMV.values()) + [ORDER, PS.PS_AXIS, PS.PS_VALUE]
 
 CARRIER_OF = {"real": "ereal", "log": "ereal", "viterbi": "trop", "bool": "bool"}
 SEMIRINGS = ["real", "log", "viterbi", "bool"]
@@ -721,7 +722,7 @@ def run_models_parallel(jobs, seed):
     return out
 
 def nontrivial(c):
-    if c["kind"] in ("dense", "patterned"):
+    if c["kind"] in ("dense", "patterned", "psolve"):
         n = c["n"]; z = U.zero_of(c["semiring"])
         return n >= 2 and any(c["A"][i][j] != z for i in range(n) for j in range(n) if i != j)
     return len(c["a"]) >= 2
@@ -774,6 +775,25 @@ def run(tier, seed):
             if r["lu"] and r["lu"][0][0] == "ok": lu = lu_wire(r["lu"][0][1])
             lus.append((c, (c["n"], U.wire_mat(name, c["A"]), [U.wire_val(name, row[0]) for row in c["B"]], lu, [row[0] for row in r["X"]]), r))
 
+    # ---- (iii') PatternedTensor.solve at the level of its axis loop (tier B): generated typed
+    # patterned systems, the loop's result / passes / warnings and the operands of solve_thunks
+    # observed; the dense result is judged by the same dense check functions as above
+    ps_items = []
+    for c in PS.psolve_cases(rng, tier, SEMIRINGS):
+        name = c["semiring"]; call = "PatternedTensor.solve"
+        try:
+            r = PS.run_case(c)
+        except Exception as e:
+            violations.append(Violation("%s raised %r" % (call, e), case={k: U.jsonable(v) for k, v in c.items()}, call=call, corr="corr:psolve"))
+            continue
+        count(c); evals += 1
+        if r["modified"]:
+            violations.append(Violation("%s modified its arguments (byte snapshot differs)" % call, case={k: U.jsonable(v) for k, v in c.items()}, call=call, corr="arguments unmodified"))
+        ps_items.append((c, r))
+        if c["n"] > 0 and c["m"] > 0:
+            mflag = 0 if c["vec"] else c["m"]
+            batches[CARRIER_OF[name]].append((c, dense_value(name, c["n"], mflag, c["A"], c["B"], r["X"]), r["X"], call))
+
     # ---- (ii) multi_solve
     mb = {"ereal": [], "trop": [], "bool": []}
     orders = []
@@ -818,10 +838,37 @@ def run(tier, seed):
     jobs += [(MSOLVE[k], [v for _, v, _ in mb[k]], 8, "c09-ms-" + k) for k in carriers]
     jobs.append((ORDER, [v for _, v in orders], 8, "c09-order"))
     jobs += [(MMV[k], [v for _, v, _ in vb[k]], 8, "c09-mv-" + k) for k in carriers]
+    ps_axis_vals = [PS.axis_value(c, r) for c, r in ps_items]
+    ps_val_items = [(c, r) for c, r in ps_items if r["tag"] == 0]
+    ps_value_vals = [PS.value_value(c, r) for c, r in ps_val_items]
+    jobs.append((PS.PS_AXIS, ps_axis_vals, 10, "c09-psolve-axis"))
+    jobs.append((PS.PS_VALUE, ps_value_vals, 8, "c09-psolve-value"))
     res = run_models_parallel(jobs, seed)
     kernel = sum(nk for _, nk in res)
     phase["model_and_kernel_s"] = round(_time.time() - t_model, 1)
-    rd = res[0:3]; rlu = res[3]; rms = res[4:7]; rord = res[7]; rmv = res[8:11]
+    rd = res[0:3]; rlu = res[3]; rms = res[4:7]; rord = res[7]; rmv = res[8:11]; rpa = res[11]; rpv = res[12]
+    ps_hist = {}
+    for (c, r), code in zip(ps_items, rpa[0]):
+        k = "%s/passes-%d/%s" % ("normal" if r["tag"] == 0 else "b.clone", r["passes"], "ok" if code == 0 else "code-%d" % code)
+        ps_hist[k] = ps_hist.get(k, 0) + 1
+        if code:
+            violations.append(Violation("PatternedTensor.solve [%s, %s]: %s" % (c["semiring"], c["cls"], PS.AXIS_CODE_TEXT.get(code, "code %d" % code)),
+                                        case={kk: U.jsonable(x) for kk, x in c.items()},
+                                        observed=U.jsonable(dict(exit="solve_thunks called" if r["tag"] == 0 else "b.clone()", solution_axis=r["e"], passes=r["passes"], warned=r["warned"])),
+                                        oracle={1: "contains_b", 2: "closed_b", 3: "disjoint_b"}.get(code),
+                                        corr="C09_psolve_loop_closed / C09_psolve_oracles_sound / corr:psolve-axis",
+                                        failing_input_found=code in (1, 2, 3), call="PatternedTensor.solve"))
+    for (c, r), code in zip(ps_val_items, rpv[0]):
+        if code:
+            violations.append(Violation("PatternedTensor.solve [%s, %s]: %s" % (c["semiring"], c["cls"], PS.VALUE_CODE_TEXT.get(code, "code %d" % code)),
+                                        case={kk: U.jsonable(x) for kk, x in c.items()},
+                                        observed=U.jsonable(dict(solution_axis=r["e"], operand_a=r["RA"], operand_b=r["RB"], solve_thunks_result=r["Xin"], result=r["Xd"])),
+                                        oracle="gather2 / scatter2 (C09_psolve_denotes_least)", corr="corr:psolve-value",
+                                        failing_input_found=code in (4, 5, 6), call="PatternedTensor.solve"))
+    evals += len(ps_value_vals)
+    if ps_items:
+        c, r = ps_items[0]
+        samples.append(dict(case={kk: U.jsonable(x) for kk, x in c.items()}, solution_axis=U.jsonable(r["e"]), passes=r["passes"]))
     for k, (codes, _) in zip(carriers, rd):
         items = batches[k]
         for (c, v, X, call), code in zip(items, codes):
@@ -858,6 +905,7 @@ def run(tier, seed):
     cov = dict(evaluations=evals, distinct_nontrivial=len(seen_nontrivial),
                rule="dense/patterned: n <= 4, entries from the exact grids (Real/Log: 0, 1/4, 1/2, 1, 2, inf; Viterbi: -inf, -3..2, +inf; Bool), classes forcing spectral radius < 1 (row sums < 1 / negative weights), = 1 (row-stochastic, zero-weight cycles), > 1, infinite entries, zero rows, triangular; vector and matrix right-hand sides. multi: all 16 x 4 presence patterns of a 2-block system x transpose, sampled 3- and 4-block systems, block shapes (), (2,), (2,2), (3,), three key types, order recorded from the implementation; product/sum-typed patterns over index types 2x2 and 2x2x2 (rows (c,A,B) against columns (A,B,C) and variants, single-cell / single-row right-hand sides) for PatternedTensor.solve and as diagonal blocks of multi_solve, closure depth of the solution support recorded in closure_depth_histogram. non-trivial = dense: n >= 2 with a non-zero off-diagonal entry; multi: >= 2 present blocks; distinct by full case content",
                samples=samples[:6], histogram=hist, closure_depth_histogram=depth_hist, kernel_reevaluated=kernel, lu_path_observed=lu_taken,
+               psolve_axis_loop_histogram=ps_hist,
                order_model_set_iteration_assumption_held=order_sets_ok, phase_seconds=phase, job_seconds=JOB_SECONDS,
                open_items=OPEN_ITEMS)
     return cov, violations
